@@ -577,14 +577,22 @@ def check_reported(rec, case: dict, tree, log: list, index) -> None:
         for label, dvec, pvec in reported_vectors(node, name, dim):
             rec.count(counter)
             # (b) decision inside the decision box
+            outside_box = False
             for comp, (x, lo, hi) in enumerate(zip(dvec, lower, upper)):
                 slack = RTOL * max(1.0, abs(lo), abs(hi))
                 if not (lo - slack <= x <= hi + slack):
                     j = param_of_component(params, comp)
+                    outside_box = True
                     rec.violation(mech(case, f"{name}-decision-outside-box", layout_class(params, j)),
                                   f"/{name}/decision {label} component {comp} = {x!r} outside [{lo!r}, {hi!r}]; "
                                   f"decision={dvec}", case, index)
                     break
+            if outside_box and case["algo"]["type"] == "nlopt":
+                # a vector the NLopt solver itself produced outside the box (newuoa) or left uninitialised (cobyla,
+                # may hold NaN): it is reported above under the solver's key; the mapping / applied-values
+                # refutations are meaningless for it (NaN != NaN) and would only restate the same finding.
+                rec.count("nlopt_outside_box_vector_not_judged_further")
+                continue
             # reported parameters inside the declared boundaries
             pos = 0
             for j, p in enumerate(params):
